@@ -236,6 +236,9 @@ func c06(r *rand.Rand, tier string, vseed int, tr *trace.Buf, tablePath string, 
 			msgNo++
 			if i == longAt {
 				msg = make([]byte, []int{4096, 4097, 10000, 5000}[(pi+vseed)%4])
+				if pi == 0 { // one message beyond 64 KiB (a streaming path would start at some such size)
+					msg = make([]byte, 65537+r.Intn(3000))
+				}
 			}
 			r.Read(msg)
 			cur = nil
